@@ -98,7 +98,7 @@ def direct_instances(ctx):
                 inst["tag"] = "exh2q"
                 insts.append(inst)
         ctx.exhaustive = True
-    for _ in range(ctx.n(1500, 30000)):
+    for _ in range(ctx.n(2000, 30000)):
         inst = md.make_instance(rng)
         inst["tag"] = "rnd"
         insts.append(inst)
@@ -351,7 +351,7 @@ def run(ctx):
     ctx.log(f"direct: evaluated in Coq ({time.time() - t0:.0f}s)")
     if l2_bad:
         search_direct(ctx)
-    specs = [md.make_cli_spec(ctx.rng) for _ in range(ctx.n(150, 1500))]
+    specs = [md.make_cli_spec(ctx.rng) for _ in range(ctx.n(200, 2500))]
     ctx.log(f"cli: {len(specs)} runs")
     runs = cli_runs(ctx, specs)
     ctx.log(f"cli: implementation done ({time.time() - t0:.0f}s)")
